@@ -529,6 +529,9 @@ func (sig *Signature[Sig, SigFE, PK, PKFE, E, S]) UnmarshalCBOR(data []byte) err
 	if err != nil {
 		return errs.Wrap(err).WithMessage("could not unmarshal signature from CBOR")
 	}
+	if dto == nil {
+		return errs.Wrap(serde.ErrNull).WithMessage("could not unmarshal signature from CBOR")
+	}
 	sig2, err := NewSignature(dto.V, dto.Pop)
 	if err != nil {
 		return errs.Wrap(err).WithMessage("could not create signature from deserialized data")
@@ -671,6 +674,9 @@ func (pop *ProofOfPossession[Sig, SigFE, PK, PKFE, E, S]) UnmarshalCBOR(data []b
 	dto, err := serde.UnmarshalCBOR[*proofOfPossessionDTO[Sig, SigFE, PK, PKFE, E, S]](data)
 	if err != nil {
 		return errs.Wrap(err).WithMessage("could not unmarshal proof of possession from CBOR")
+	}
+	if dto == nil {
+		return errs.Wrap(serde.ErrNull).WithMessage("could not unmarshal proof of possession from CBOR")
 	}
 	pop2, err := NewProofOfPossession(dto.V)
 	if err != nil {
